@@ -134,6 +134,22 @@ Example C24_length_prefix_example :
   chunk_at crc32c (alter 8 131 seg) 8 = RErr RSize.
 Proof. vm_compute. auto. Qed.
 
+(* ---------------------------------------------------------------- LabelNamesFor (refuted)
+   Full statement wanted: a read API that is handed a damaged postings list reports the error.
+   index.Reader.LabelNamesFor iterates `for postings.Next()` and never calls postings.Err(); the
+   model takes (ids delivered before the failure, the failure) and the failure is not used.
+   On the real code (harness, shape labelnames-matchers-ignores-postings-error): one byte of the
+   postings list of a="b" altered -> block.Index().LabelNames(a=~".+") returns [] and no error
+   (PostingsForLabelMatching reports the checksum error lazily through the iterator, PostingsForMatchers
+   passes the iterator on, labelNamesWithMatchers hands it to LabelNamesFor). *)
+Theorem C24_label_names_for_ignores_failure : forall crc r ids e,
+  label_names_for crc r ids (Some e) = label_names_for crc r ids None.
+Proof. exact label_names_for_ignores_failure. Qed.
+
+Theorem C24_label_names_for_refuted :
+  exists crc r ids e res, label_names_for crc r ids (Some e) = ROk res.
+Proof. exact label_names_for_refuted. Qed.
+
 (* ---------------------------------------------------------------- non-vacuity *)
 (* the two checksum hypotheses are jointly satisfiable: the byte sum mod 2^32 has both *)
 Example C24_hypotheses_satisfiable :
